@@ -10,6 +10,7 @@ from mc import canon
 from mc import core
 from mc import shapes
 import vfx
+from vfx import nodes as N
 
 PROP = 'C06'
 LEVEL = 'model_checking'
@@ -41,11 +42,12 @@ LEVEL_TEXT = ('== is evaluated on every ordered pair of a closed bounded '
 LEVEL_NOTE = ('Trusted: mc.canon (independent walker). Bounds: families of '
               '~900 + ~300 (quick), ~4500 + ~2100 (thorough) configurations.')
 
-ROOTS = ['eq', 'eqb', 'eqpar', 'eqpos']
+ROOTS = ['eq', 'eqb', 'eqpar', 'eqpos', 'eqmd2']
 FAMILIES = {
     'A': (['eq', 'eqb', 'eqpar', 'list2', 'tuple2', 'dict2', 'dict2r'], 2, 2),
     'M': (['eq', 'eqpos', 'list2', 'dictmix', 'dictmixr', 'dictenum',
            'dictenumr'], 2, 2),
+    'D': (['eqmd2', 'eq', 'mlist'], 3, 1),
     'P': (['eq', 'list2', 'dictfs', 'dictfsr', 'dictcyc', 'dictcycr',
            'dictcycm'], 3, 1),
     'B': (['eq', 'eqb', 'eqpar', 'eqpos', 'list2', 'tuple1', 'dict2',
@@ -64,8 +66,8 @@ NCHUNK = 32
 
 
 def bounds(tier):
-  fams = (['A', 'M', 'S3', 'T', 'P'] if tier == 'quick' else
-          ['B', 'C', 'S3', 'T', 'P'])
+  fams = (['A', 'M', 'S3', 'T', 'P', 'D'] if tier == 'quick' else
+          ['B', 'C', 'S3', 'T', 'P', 'D'])
   return {'families': {f: FAMILIES[f] for f in fams},
           'alias_menu': ['eq', 'eq3'], 'alias_nodes': 4}
 
@@ -78,6 +80,7 @@ def units(tier, seed):
     out.append(('rewrites', f))
   for k in range(NCHUNK):
     out.append(('alias', k))
+  out.append(('registry',))
   return out
 
 
@@ -124,8 +127,67 @@ def classify(sa, sb):
   return 'plain'
 
 
+def run_registry_history(res):
+  """A user container type that is compared while it is still unknown to
+  daglish, then registered as a node type: later comparisons look inside it
+  (sharing that passes through it is distinguished), exactly as when the
+  type had been registered from the start."""
+  from fiddle import daglish  # pylint: disable=g-import-not-at-top
+
+  def scenario(compare_first, second_registry_use):
+    class Box:
+      def __init__(self, items):
+        self.items = items
+      def __eq__(self, other):
+        return type(other) is type(self) and self.items == other.items
+      __hash__ = None
+
+    def pair():
+      s = ['shared']
+      a = fdl.Config(N.eqnode, x=Box([s]), y=s)
+      s2 = ['shared']
+      b = fdl.Config(N.eqnode, x=Box([['shared']]), y=s2)
+      return a, b
+
+    obs = []
+    if compare_first:
+      a, b = pair()
+      obs.append(('before', safe_eq(a, b), safe_eq(b, a)))
+      if second_registry_use:
+        obs.append(('before-build', build_canon(a) == build_canon(b)))
+    daglish.register_node_traverser(
+        Box, flatten_fn=lambda b_: ((b_.items,), None),
+        unflatten_fn=lambda vals, _: Box(vals[0]),
+        path_elements_fn=lambda b_: (daglish.Attr('items'),))
+    a, b = pair()
+    obs.append(('after', safe_eq(a, b), safe_eq(b, a),
+                build_canon(a) == build_canon(b)))
+    return obs
+
+  for compare_first in (False, True):
+    for second in (False, True):
+      res.states += 1
+      res.nontrivial += 1
+      res.transitions += 1
+      obs = scenario(compare_first, second)
+      case = {'registry_history': [compare_first, second]}
+      after = obs[-1]
+      res.outcomes[f'registry:{after[1:]}'] += 1
+      # after registration the two configurations differ in sharing
+      if after[1] != ('ok', False) or after[2] != ('ok', False):
+        res.violation(
+            'C06/different-configs-compare-equal/type-registered-after-'
+            'first-comparison',
+            f'{case}: observations {obs}: a shares a list through the '
+            f'registered container, b does not; builds equal: {after[3]}',
+            case)
+
+
 def run_unit(unit, tier, seed):
   res = core.Result()
+  if unit[0] == 'registry':
+    run_registry_history(res)
+    return res
   if unit[0] == 'rewrites':
     return run_rewrites(unit[1], res)
   if unit[0] == 'alias':
@@ -324,6 +386,11 @@ def _shape(x):
 
 def replay(case):
   res = core.Result()
+  if 'registry_history' in case:
+    run_registry_history(res)
+    for v in res.violations:
+      print(v['what'])
+    return res
   if case['family'] == 'alias':
     ks = shapes.std_kinds(['eq', 'eq3'])
     byname = {x.name: x for x in ks}
